@@ -75,7 +75,7 @@ def fit(t, v):
     return abs(v) <= 2 ** 53 or v == F_FILL
 
 
-def gen_case(rng, dt, fam="field", subset=None, malformed=False):
+def gen_case(rng, dt, fam="field", subset=None, malformed=False, shape=None):
     lo, hi = rng_of(dt)
     dfill = DEFAULT_FILL[dt]
     small = [v for v in range(-3, 8) if lo <= v <= hi]
@@ -185,7 +185,8 @@ def gen_case(rng, dt, fam="field", subset=None, malformed=False):
         attrs["_Unsigned"] = {"t": "str", "v": rng.choice(["true", "true", "true", "True", "false", "TRUE"])}
     # shape and data
     r = rng.random()
-    shape = [rng.randint(7, 10)] if r < 0.8 else ([2, 4] if (r < 0.93 or fam == "aux") else [])
+    if shape is None:
+        shape = [rng.randint(7, 10)] if r < 0.8 else ([2, 4] if (r < 0.93 or fam == "aux") else [])
     n = int(np.prod(shape)) if shape else 1
     spec_in = []
     for v in special:
@@ -252,6 +253,135 @@ CORPUS = [
 ]
 
 
+# ---------------------------------------------------------------- constructs with children, strings
+MULTI = ("pair", "geom", "dsg", "string")
+CKINDS = ["dim", "aux", "domanc", "cellm", "fanc"]
+
+
+def gen_var(rng, dt, n, cols=None, attrs="random", nw=None):
+    """One variable of a construct: attributes and data from gen_case, then the trailing
+    nw rows are never written, so the library pre-fills them (_FillValue, else the default
+    fill value of the variable's OWN type)."""
+    shape = [n] if cols is None else [n, cols]
+    sub = set() if attrs == "none" else None
+    c = gen_case(rng, dt, fam="pair", subset=sub, shape=shape)
+    if attrs == "masking":
+        for k in ("scale_factor", "add_offset", "_Unsigned"):
+            c["attrs"].pop(k, None)
+    data = list(c["data"])
+    if nw is None:
+        nw = rng.choice([0, 1, 1, 2])
+    per = 1 if cols is None else cols
+    fillv = c["fill"] if c["fill"] is not None else DEFAULT_FILL[dt]
+    for k in range((n - nw) * per, n * per):
+        data[k] = fillv
+    return {"dt": dt, "shape": shape, "n": n, "nw": nw, "attrs": c["attrs"], "fill": c["fill"], "data": data,
+            "inexact": c["inexact"] and bool(c["attrs"])}
+
+
+def gen_pair(rng, k):
+    ckind = CKINDS[k % len(CKINDS)]
+    pdt = rng.choice(DTYPES)
+    n = rng.randint(3, 6)
+    parent = gen_var(rng, pdt, n, attrs=rng.choice(["none", "none", "masking", "random"]))
+    child = None
+    if ckind in ("dim", "aux", "domanc"):
+        cdt = rng.choice([d for d in DTYPES if DEFAULT_FILL[d] != DEFAULT_FILL[pdt]] if rng.random() < 0.8 else DTYPES)
+        child = gen_var(rng, cdt, n, cols=2, attrs=rng.choice(["none", "none", "none", "masking", "random"]),
+                        nw=rng.choice([1, 1, 2, 0]))
+    return {"kind": "pair", "ckind": ckind, "fam": "pair-" + ckind, "parent": parent, "child": child}
+
+
+def plain_var(dt, values, holes):
+    data = [DEFAULT_FILL[dt] if k in holes else v for k, v in enumerate(values)]
+    return {"dt": dt, "shape": [len(values)], "n": len(values), "nw": 0, "attrs": {}, "fill": None, "data": data, "inexact": False}
+
+
+def gen_geom(rng):
+    X = [20, 10, 0, 5, 10, 15, 10, 20, 10, 0, 50, 40, 30]
+    Y = [0, 15, 0, 5, 10, 5, 5, 20, 35, 20, 0, 15, 0]
+    def holes(m):
+        return set(rng.sample(range(m), rng.choice([0, 1, 1, 2])))
+    return {"kind": "geom", "fam": "geom",
+            "ir": plain_var(rng.choice(INTS), [0, 1, 0, 0], holes(4)),
+            "x": plain_var(rng.choice(DTYPES), X, holes(13)), "y": plain_var(rng.choice(DTYPES), Y, holes(13)),
+            "lon": plain_var(rng.choice(DTYPES), [10, 40], holes(2)), "lat": plain_var(rng.choice(DTYPES), [25, 7], holes(2))}
+
+
+def gen_dsg(rng):
+    n = 5
+    return {"kind": "dsg", "fam": "dsg", "count_dt": rng.choice(["i4", "i2", "u1", "i8", "u4"]),
+            "data_var": gen_var(rng, rng.choice(DTYPES), n, attrs=rng.choice(["none", "masking"]), nw=rng.choice([1, 2])),
+            "time": gen_var(rng, rng.choice(DTYPES), n, attrs="none", nw=rng.choice([0, 1, 2])),
+            "lat": gen_var(rng, rng.choice(DTYPES), 2, attrs="none", nw=rng.choice([0, 1]))}
+
+
+WORDS = ["abc", "xy", "zzz", "z", "a", "qrs", "ab"]
+
+
+def gen_string(rng, k):
+    dt = "S1" if k % 2 == 0 else "str"
+    n = rng.randint(3, 5)
+    data = [rng.choice(WORDS + [""]) for _ in range(n)]
+    for j in range(n - rng.choice([0, 1, 1]), n):
+        data[j] = None                                   # never written
+    fill = mv = None
+    r = rng.random()
+    if r < 0.25:
+        fill = "z" if dt == "S1" else rng.choice(["abc", "zzz", "none"])
+    elif r < 0.5:
+        mv = rng.choice(["abc", "xy", "z"])
+    return {"kind": "string", "fam": "string-" + dt, "dt": dt, "strlen": 3, "data": data, "fill": fill, "missing_value": mv}
+
+
+def as_case(var, i):
+    """A variable of a multi-variable case in the shape of a single-variable case."""
+    return {"i": i, "dt": var["dt"], "attrs": var["attrs"], "fill": var["fill"], "data": var["data"], "shape": var["shape"],
+            "inexact": var["inexact"], "malformed": False, "kind": "field", "fam": "pair"}
+
+
+def pair_names(c):
+    i, ck = c["i"], c["ckind"]
+    pn = {"dim": f"p{i}", "aux": f"a{i}", "domanc": f"da{i}", "cellm": f"m{i}", "fanc": f"fa{i}"}[ck]
+    return pn, pn + "|bounds", pn + "_bnds"
+
+
+def inherits(parent, child):
+    return any(k in parent["attrs"] and k not in child["attrs"] for k in MASK_ATTRS)
+
+
+def _v(dt, shape, data, nw=0, attrs=None, fill=None):
+    return {"dt": dt, "shape": shape, "n": shape[0], "nw": nw, "attrs": attrs or {}, "fill": fill, "data": data, "inexact": False}
+
+
+CORPUS_MULTI = [
+    # seeded change: the default fill value recorded for the bounds taken from the parent variable
+    {"kind": "pair", "ckind": "dim", "fam": "corpus-bounds-own-default",
+     "parent": _v("i4", [4], [1, 2, 3, 4]),
+     "child": _v("f8", [4, 2], [0, 1, 1, 2, 2, 3, F_FILL, F_FILL], nw=1)},
+    {"kind": "pair", "ckind": "aux", "fam": "corpus-bounds-own-default",
+     "parent": _v("f4", [3], [1, 2, F_FILL], nw=1),
+     "child": _v("i2", [3, 2], [0, 1, 1, 2, -32767, -32767], nw=1)},
+    {"kind": "pair", "ckind": "domanc", "fam": "corpus-bounds-own-default",
+     "parent": _v("i2", [3], [5, 6, -32767], nw=1),
+     "child": _v("u1", [3, 2], [1, 2, 3, 4, 255, 255], nw=1)},
+    # bounds take missing_value over from the parent in apply_masking, not in the masked read (open)
+    {"kind": "pair", "ckind": "aux", "fam": "corpus-bounds-inherit",
+     "parent": _v("i4", [3], [1, 2, 3], attrs={"missing_value": {"t": "i4", "v": [2], "vec": False}}),
+     "child": _v("f8", [3, 2], [0, 1, 1, 2, 2, 3])},
+    # F07g / F07h on a construct and on its bounds (fix2-3)
+    {"kind": "pair", "ckind": "aux", "fam": "corpus-F07g-F07h",
+     "parent": _v("i2", [3], [1, 2, 3], attrs={"valid_min": {"t": "i4", "v": [70000], "vec": False}}),
+     "child": _v("i2", [3, 2], [1, 1, 2, 2, 3, 3], attrs={"valid_range": {"t": "i2", "v": [2, 4], "vec": True},
+                                                         "valid_min": {"t": "i2", "v": [3], "vec": False}})},
+    # a vlen string variable in the dataset made read(mask=False) raise (fix2-1)
+    {"kind": "string", "fam": "corpus-string-mask-off", "dt": "str", "strlen": 3, "data": ["abc", "xy", "", None],
+     "fill": None, "missing_value": None},
+    {"kind": "string", "fam": "corpus-string-mask-off", "dt": "S1", "strlen": 3, "data": ["abc", "xy", "", None],
+     "fill": None, "missing_value": None},
+]
+
+
 def build_cases(chk):
     rng = chk.rng
     T = chk.tier == "thorough"
@@ -272,6 +402,19 @@ def build_cases(chk):
             cases.append(gen_case(rng, dt, fam="all-subsets", subset=sub))
     for k in range(n_mal):
         cases.append(gen_case(rng, DTYPES[k % len(DTYPES)], fam="malformed", malformed=True))
+    n_pair = int((700 if T else 150) * scale)
+    n_geom = int((80 if T else 16) * scale)
+    n_dsg = int((80 if T else 16) * scale)
+    n_str = int((160 if T else 40) * scale)
+    cases += [dict(c) for c in CORPUS_MULTI]
+    for k in range(n_pair):
+        cases.append(gen_pair(rng, k))
+    for k in range(n_geom):
+        cases.append(gen_geom(rng))
+    for k in range(n_dsg):
+        cases.append(gen_dsg(rng))
+    for k in range(n_str):
+        cases.append(gen_string(rng, k))
     for i, c in enumerate(cases):
         c["i"] = i
     return cases
@@ -283,12 +426,18 @@ def run_cases(cases, scratch, nworkers=14, per_file=20):
     groups = []
     def alone(c):
         return c["fam"].startswith("corpus") or vector_pack(c) or str_attr(c)
-    normal = [c for c in cases if not alone(c)]
+    single = [c for c in cases if c["kind"] not in MULTI]
+    normal = [c for c in single if not alone(c)]
     for k in range(0, len(normal), per_file):
         groups.append(normal[k:k + per_file])
-    for c in cases:
+    for c in single:
         if alone(c):
             groups.append([c])
+    for kind, size in (("pair", 10), ("geom", 4), ("dsg", 4), ("string", 3)):
+        these = [c for c in cases if c["kind"] == kind and not c["fam"].startswith("corpus")]
+        for k in range(0, len(these), size):
+            groups.append(these[k:k + size])
+        groups += [[c] for c in cases if c["kind"] == kind and c["fam"].startswith("corpus")]
     groups = [{"gid": n, "cases": g} for n, g in enumerate(groups)]
     shards = [groups[k::nworkers] for k in range(nworkers)]
     shards = [s for s in shards if s]
@@ -501,11 +650,173 @@ def judge(chk, model_ok, cases, rows, crashed):
         chk.fail("property", sig, what, {"input": {k: v for k, v in c.items() if k != "i"}, "config": cfg,
                                          "expected": expected, "observed": observed})
 
+    lits_child, map_child = [], []
+    for k in ("pair_children", "prefilled_elements", "child_dtype_differs", "inherit_cases", "multi_keys_compared",
+              "string_cases", "string_with_attrs"):
+        stats[k] = 0
+
+    def string_spec(c):
+        """(raw values, mask) of a char / string variable, from the NUG: an element is missing iff it equals the
+        fill value (the _FillValue attribute, else the default: NUL characters / the empty string) or the
+        missing_value; a never-written element holds the fill value."""
+        if c["dt"] == "S1":
+            fillstr = ((c["fill"] or "\x00") * c["strlen"]).rstrip("\x00")
+        else:
+            fillstr = c["fill"] if c["fill"] is not None else ""
+        raw = [fillstr if x is None else x for x in c["data"]]
+        return raw, [x == fillstr or (c["missing_value"] is not None and x == c["missing_value"]) for x in raw]
+
+    def judge_multi(c, r):
+        stats["families"][c["fam"]] = stats["families"].get(c["fam"], 0) + 1
+        nontrivial.add(lib.canon({k: v for k, v in c.items() if k not in ("i", "fam")}))
+        cf, refs = r["cf"], r.get("refs", {})
+        variables = {}
+        if c["kind"] == "pair":
+            pn, bn, bnc = pair_names(c)
+            variables[pn] = (as_case(c["parent"], c["i"]), "parent", pn)
+            stats["dtypes"][c["parent"]["dt"]] = stats["dtypes"].get(c["parent"]["dt"], 0) + 1
+            stats["prefilled_elements"] += c["parent"]["nw"]
+            if c["child"]:
+                variables[bn] = (as_case(c["child"], c["i"]), "child", bnc)
+                stats["pair_children"] += 1
+                stats["prefilled_elements"] += 2 * c["child"]["nw"]
+                stats["child_dtype_differs"] += c["child"]["dt"] != c["parent"]["dt"]
+                stats["inherit_cases"] += inherits(c["parent"], c["child"])
+        if c["kind"] == "string":
+            stats["string_cases"] += 1
+            stats["string_with_attrs"] += c["fill"] is not None or c["missing_value"] is not None
+            sraw, smask = string_spec(c)
+            rr = refs.get(f"c{c['i']}", {}).get("raw")
+            if rr is None or "err" in rr or rr["flat"] != sraw:
+                chk.fail("correspondence", "harness-error", f"string case not written as intended: {brief(rr)} vs {sraw}",
+                         {"correspondence": "drive/c07.py", "input": c})
+                return
+        has_sattr = c["kind"] == "string" and (c["fill"] is not None or c["missing_value"] is not None)
+        desc = json.dumps({k: v for k, v in c.items() if k not in ("i",)})[:900]
+
+        def classify_apply(name, u):
+            if has_sattr:
+                return "apply-masking-string-attribute"
+            if name.endswith("|interior_ring"):
+                return "apply-masking-interior-ring-not-masked"
+            V = variables.get(name)
+            if V is None:
+                return "apply-masking-differs-from-masked-read"
+            case, role, _ = V
+            if u and packing(case):
+                return "apply-masking-on-unpacked-data"
+            if role == "child" and inherits(c["parent"], c["child"]):
+                return "apply-masking-bounds-inherit-parent-attributes"
+            return "apply-masking-differs-from-masked-read"
+
+        for (b, m, u) in CONFIGS:
+            key = f"{b}|{int(m)}|{int(u)}"
+            o = cf.get(key, {})
+            bad = o.get("read_failed") or o.get("failed")
+            if bad or "all" not in o:
+                sig = "read-raises"
+                if not m and c["kind"] == "string":
+                    sig = "mask-off-read-raises-for-string-variable"
+                elif not m and c["kind"] == "geom":
+                    sig = "mask-off-read-raises-for-geometry"
+                fail(c, sig, f"read(mask={m}, unpack={u}, {b}) (+ apply_masking) of {desc} raises {(bad or {}).get('msg')}",
+                     "arrays", brief(bad), key)
+                continue
+            A = o["all"]
+            for name, w in A.items():
+                if "err" in w:
+                    fail(c, "read-raises", f"{desc}: {name}.array raises {w.get('msg')} ({key})", "an array", brief(w), key + "|" + name)
+                    continue
+                stats["elements"] += len(w["flat"])
+                stats["masked_elements"] += sum(1 for v in w["flat"] if v is None)
+                # (the padding of ragged arrays - geometry nodes, DSG rows - is masked whatever the mask setting)
+                if not m and c["kind"] in ("pair", "string") and any(v is None for v in w["flat"]):
+                    fail(c, "mask-off-read-is-masked", f"{desc}: read(mask=False) {name} has masked elements", None, brief(w), key + "|" + name)
+            # the reference library / the raw values, variable by variable
+            for name, (V, role, ncname) in variables.items():
+                w = A.get(name)
+                if w is None or "err" in w:
+                    if w is None:
+                        fail(c, "construct-missing", f"{desc}: no construct {name} ({key})", name, sorted(A), key + "|" + name)
+                    continue
+                ref = refs.get(ncname, {})
+                if m:
+                    rr = ref.get("ref" if u else "ref_mask_only")
+                    if rr is not None and "err" not in rr and not (vector_pack(V) or str_attr(V)):
+                        stats["ref_compared"] += 1
+                        if not ref_agrees(V, w, rr, int(u)):
+                            fail(c, "read-differs-from-netCDF4-library", f"read(mask=True, unpack={u}, {b}) of {name} in {desc}: cfdm presents "
+                                 f"{brief(w)}, netCDF4-python presents {brief(rr)}", brief(rr), brief(w), key + "|" + name)
+                elif not u and not same(w, ref.get("raw")):
+                    fail(c, "mask-off-unpack-off-not-raw", f"{desc}: {name} read(mask=False, unpack=False, {b}) {brief(w)} but the file holds "
+                         f"{brief(ref.get('raw'))}", brief(ref.get("raw")), brief(w), key + "|" + name)
+            if c["kind"] == "string":
+                w = A["<field>"]
+                if "err" not in w:
+                    e = [None if (mk and m) else x for x, mk in zip(sraw, smask)]
+                    if w["flat"] != e:
+                        sig = "string-fill-or-missing-value-not-honoured" if has_sattr else "string-read-differs"
+                        fail(c, sig, f"read(mask={m}, {b}) of {desc}: cfdm presents {w['flat']}, the conventions give {e}", e, w["flat"], key)
+            # O6: apply_masking after the mask=False read, for EVERY construct, its bounds and interior ring
+            if not m:
+                wmall = cf.get(f"{b}|1|{int(u)}", {}).get("all")
+                if wmall is not None:
+                    for fld in ("applied", "applied_inplace", "applied_solo"):
+                        got_all = o.get(fld, {})
+                        for name, e in wmall.items():
+                            if "err" in e or (fld == "applied_solo" and name not in got_all):
+                                continue
+                            stats["apply_compared"] += 1
+                            stats["multi_keys_compared"] += 1
+                            got = got_all.get(name)
+                            if not same(got, e):
+                                fail(c, classify_apply(name, u), f"{desc}: read(mask=False, unpack={u}, {b}) then apply_masking() [{fld}] "
+                                     f"presents {name} as {brief(got)}, read(mask=True) as {brief(e)}", brief(e), brief(got), key + "|" + name)
+                    for name, e in A.items():
+                        if "err" not in e and not same(o.get("after", {}).get(name), e):
+                            fail(c, "apply-masking-changed-original", f"{desc}: {name} of the mask=False field changed after apply_masking() / "
+                                 f"after overwriting the returned arrays: {brief(e)} -> {brief(o.get('after', {}).get(name))}", brief(e),
+                                 brief(o.get("after", {}).get(name)), key + "|" + name)
+            # O2: backends agree
+            if b == "netCDF4":
+                o2 = cf.get(f"h5netcdf|{int(m)}|{int(u)}", {})
+                stats["backend_pairs"] += 1
+                for fld in ("all", "applied"):
+                    for name, e in o.get(fld, {}).items():
+                        if "err" not in e and not same(e, o2.get(fld, {}).get(name)):
+                            fail(c, "string-fill-or-missing-value-not-honoured" if has_sattr else "backends-differ",
+                                 f"{desc} mask={m} unpack={u} {fld} {name}: netCDF4 {brief(e)} vs h5netcdf "
+                                 f"{brief(o2.get(fld, {}).get(name))}", brief(e), brief(o2.get(fld, {}).get(name)), key + "|" + name)
+            # correspondence literals (netCDF4 backend)
+            if b == "netCDF4" and c["kind"] == "pair":
+                for name, (V, role, ncname) in variables.items():
+                    w = A.get(name)
+                    if w is None or "err" in w or not modelable(V):
+                        continue
+                    lits_read.append(f"({V['dt'].upper()}, {g_case_attrs(V)}, {gbool(m)}, {gbool(u)}, {glist(V['data'], g_num)}, {g_obs(w)})")
+                    map_read.append((c, key + "|" + name, w))
+                    if m or (u and packing(V)):
+                        continue
+                    oa = o.get("applied", {}).get(name)
+                    if role == "parent":
+                        lits_app.append(f"({V['dt'].upper()}, {g_case_attrs(V)}, {gbool(u)}, {glist(V['data'], g_num)}, {g_obs(oa)})")
+                        map_app.append((c, key + "|" + name, oa))
+                    else:
+                        Pc = variables[pair_names(c)[0]][0]
+                        wm = cf.get(f"{b}|1|{int(u)}", {}).get("all", {}).get(name)
+                        if modelable(Pc) and wm is not None:
+                            lits_child.append(f"({V['dt'].upper()}, {g_case_attrs(V)}, {g_case_attrs(Pc)}, {gbool(u)}, "
+                                              f"{glist(V['data'], g_num)}, {g_obs(wm)}, {g_obs(oa)})")
+                            map_child.append((c, key + "|" + name, oa))
+
     for c, r in zip(cases, rows):
         if r is None:
             continue
         if "harness_err" in r:
             chk.fail("correspondence", "harness-error", r["harness_err"], {"correspondence": "drive/c07.py", "input": c})
+            continue
+        if c["kind"] in MULTI:
+            judge_multi(c, r)
             continue
         stats["families"][c["fam"]] = stats["families"].get(c["fam"], 0) + 1
         stats["dtypes"][c["dt"]] = stats["dtypes"].get(c["dt"], 0) + 1
@@ -618,8 +929,6 @@ def judge(chk, model_ok, cases, rows, crashed):
                         stats["apply_compared"] += 1
                         e = wm if fld != "bapplied" else {"dtype": wm["dtype"], "shape": wm["shape"] + [2],
                                                           "flat": [v for v in wm["flat"] for _ in (0, 1)]}
-                        if bad_range_len(c) or str_attr(c):
-                            continue      # malformed attributes: only the reads themselves are checked
                         if not same(o[fld], e):
                             if u and packing(c):
                                 sig = "apply-masking-on-unpacked-data"
@@ -658,7 +967,8 @@ def judge(chk, model_ok, cases, rows, crashed):
                     map_app.append((c, key, o["applied"]))
     ncorr = 0
     if model_ok:
-        for (lits, mp, fn) in ((lits_read, map_read, "check_read"), (lits_app, map_app, "check_apply")):
+        for (lits, mp, fn) in ((lits_read, map_read, "check_read"), (lits_app, map_app, "check_apply"),
+                               (lits_child, map_child, "check_child")):
             if not lits:
                 continue
             bad = lib.coq_bad_indices("C07", REQ, fn, lits, chunk=250)
@@ -666,18 +976,23 @@ def judge(chk, model_ok, cases, rows, crashed):
             shown = 0
             for i in bad:
                 c, key, w = mp[i]
-                if (c["i"], key, "apply" if fn == "check_apply" else "read") in explained:
+                if (c["i"], key, "apply" if fn != "check_read" else "read") in explained:
+                    continue
+                if fn == "check_child" and (c["i"], key.replace("|0|", "|1|"), "read") in explained:
                     continue
                 shown += 1
                 if shown > 40:
                     break
                 chk.fail("correspondence", f"model-vs-impl:{fn}",
-                         f"model and implementation disagree ({fn}, {key}) on {c['dt']} attrs {json.dumps(c['attrs'])} "
-                         f"fill {c['fill']} data {c['data']}: implementation gives {brief(w)}",
+                         f"model and implementation disagree ({fn}, {key}) on "
+                         + (f"{c['dt']} attrs {json.dumps(c['attrs'])} fill {c['fill']} data {c['data']}" if c["kind"] not in MULTI
+                            else json.dumps({k: v for k, v in c.items() if k != 'i'})[:900])
+                         + f": implementation gives {brief(w)}",
                          {"correspondence": f"C07.Run.{fn}", "input": {k: v for k, v in c.items() if k != 'i'}, "config": key,
                           "observed": brief(w)})
     stats["model_cases_read"] = len(lits_read)
     stats["model_cases_apply"] = len(lits_app)
+    stats["model_cases_child"] = len(lits_child)
     chk.coverage.update({
         "evaluations": len(cases) * len(CONFIGS),
         "distinct_nontrivial": len(nontrivial),
@@ -689,7 +1004,8 @@ def judge(chk, model_ok, cases, rows, crashed):
                 "value, type limits, NaN; 1-d, 2-d and scalar variables; data variables and auxiliary coordinates with bounds; a "
                 "malformed stream (string-valued attributes, valid_range of 1 or 3 values, vector scale_factor/add_offset). "
                 "Non-trivial = at least one of the eight attributes present; distinct by canonical JSON of the variable",
-        "samples": [{k: v for k, v in cases[j].items() if k in ("dt", "attrs", "fill", "data")} for j in sorted({min(7, len(cases) - 1), len(cases) // 2, len(cases) - 1})],
+        "samples": [{k: v for k, v in cases[j].items() if k in ("dt", "attrs", "fill", "data", "kind", "ckind", "parent", "child", "missing_value")}
+                    for j in sorted({min(7, len(cases) - 1), len(cases) // 3, len(cases) - 60 if len(cases) > 60 else 0, len(cases) - 1})],
         "traces_validated_against_impl": ncorr,
         "disagreements_checked": ncorr,
         "counters": stats,
@@ -718,7 +1034,7 @@ def replay(chk, path):
     seen, cases = set(), []
     for x in d.get("cases", []):
         c = x.get("input")
-        if not c or "dt" not in c:
+        if not c or ("dt" not in c and c.get("kind") not in MULTI):
             continue
         key = lib.canon(c)
         if key in seen:
